@@ -68,3 +68,4 @@ pub fn mmapper_is_mapped(addr: crate::util::Address) -> bool {
 pub mod c35;
 pub mod c37;
 pub mod c30;
+pub mod c24;
